@@ -417,7 +417,6 @@ def tversky_loss(
         weight=weight,
         alpha=alpha,
         beta=beta,
-        gamma=gamma,
         epsilon=epsilon,
         normalize=normalize,
         binarize=binarize,
